@@ -86,6 +86,29 @@ if len(m) != 1:
 width = {"u8": 8, "u16": 16, "u32": 32, "u64": 64, "usize": 64}[m[0]]
 consts.append(("PUT_TALLY_BITS", "Nat", str(width), "src/core/put_query.rs"))
 
+# ---- wire names: every serde field name / rename / tag / variant name of messages/internal.rs,
+# as byte lists (the model's encoder and decoder use only these)
+wire = set(re.findall(r'rename = "([^"]+)"', internal)) | set(re.findall(r'tag = "([^"]+)"', internal))
+for m in re.finditer(r"pub struct \w+ \{(.*?)\n\}", internal, re.S):
+    body = m.group(1)
+    for fm in re.finditer(r"((?:\s*#\[[^\]]*\]\s*)*)\s*pub (\w+):", body):
+        attrs, fname = fm.group(1), fm.group(2)
+        if "rename" not in attrs:
+            wire.add(fname)
+wl = ["/-  GENERATED by tools/gen_constants.py from src/common/messages/internal.rs — do not edit.  -/",
+      "namespace Mainline.WireNames", ""]
+for w in sorted(wire):
+    wl.append(f"/-- \"{w}\" -/")
+    wl.append(f"def n_{w} : List UInt8 := [{', '.join(str(b) for b in w.encode())}]")
+wl.append("")
+wl.append("end Mainline.WireNames")
+wtext = "\n".join(wl) + "\n"
+WOUT = os.path.join(os.path.dirname(OUT), "WireNames.lean")
+if (open(WOUT).read() if os.path.exists(WOUT) else None) != wtext:
+    with open(WOUT, "w") as f:
+        f.write(wtext)
+    print("gen_constants: WireNames.lean regenerated (changed)")
+
 lines = ["/-  GENERATED by tools/gen_constants.py from /repo's working tree — do not edit.  -/",
          "namespace Mainline.Constants", ""]
 for name, ty, val, origin in consts:
